@@ -6,6 +6,7 @@ cannot collide on `git stash` or worktree metadata) and <round-dir>/prompt_<ID>.
 and the one-line ideas of earlier rounds (so that the new change differs); nothing else from /verif."""
 import json, glob, os, subprocess, sys
 root = sys.argv[1]
+two = "--two" in sys.argv
 V = os.path.dirname(os.path.dirname(os.path.abspath(__file__)))
 prev = {}
 for d in sorted(glob.glob(os.path.join(V, "seeded/*/meta.json"))):
@@ -44,6 +45,11 @@ for l in open(os.path.join(V, "properties.jsonl")):
     subprocess.run(["rsync", "-a", "--exclude", ".git", "/repo/", d + "/"], check=True)
     subprocess.run("git init -q . && git add -A && git commit -qm base", shell=True, cwd=d, env=env, check=True)
     pv = "\n".join("   - " + x for x in prev.get(p["id"], []))
-    open(os.path.join(root, "prompt_%s.txt" % p["id"]), "w").write(T.format(dir=d, id=p["id"], title=p["title"], statement=p["statement"], quant=p["quantifier"]["text"],
+    if two:
+        T2 = T.replace("Your task: design ONE realistic change", "Your task: design TWO realistic changes, INDEPENDENT of each other (different code sites, different mechanisms, aimed at different clauses of the statement; each is a separate patch against the clean commit and must break the property on its own). Each is a change")
+        T2 = T2.replace("Deliverables, all under {dir}/_seed/ :", "Deliverables: for the first change under {dir}/_seed/a/ and for the second under {dir}/_seed/b/ (work on one at a time: finish and verify the first, save it, `git apply -R` it so the tree is clean, then do the second), each directory holding:")
+        T2 = T2.replace("Leave the patch applied at the end.", "Leave the tree clean at the end (both patches saved, none applied).")
+        T2 = T2.replace("(use `git apply -R _seed/patch.diff` and re-apply afterwards; do NOT use git stash)", "(use `git apply -R` on the saved patch.diff and re-apply afterwards; do NOT use git stash)")
+    open(os.path.join(root, "prompt_%s.txt" % p["id"]), "w").write((T2 if two else T).format(dir=d, id=p["id"], title=p["title"], statement=p["statement"], quant=p["quantifier"]["text"],
                                                                           files=", ".join(p["anchors"]["files"]), prev=pv))
 print(len(glob.glob(os.path.join(root, "prompt_*.txt"))), "prompts")
